@@ -23,6 +23,9 @@ pub enum Mode {
     Genuine,
     Exception(u8),
     BadResponse,
+    /// other ways of being a bad response: 1 = genuine + a trailing byte, 2 = genuine without its last
+    /// byte, 3 = exception reply + a trailing byte, 4 = genuine reply of another function
+    BadResponseKind(u8),
     BadFraming,
     Close,
     Silence,
@@ -102,6 +105,18 @@ impl Peer {
                                         Mode::Genuine => Some(mbap_frame(tx, f[6], &genuine_pdu(&f[7..]))),
                                         Mode::Exception(c) => Some(mbap_frame(tx, f[6], &[f[7] | 0x80, c])),
                                         Mode::BadResponse => Some(mbap_frame(tx, f[6], &[f[7] ^ 0x40, 1, 2, 3])),
+                                        Mode::BadResponseKind(k) => {
+                                            let mut g = genuine_pdu(&f[7..]);
+                                            match k {
+                                                1 => g.push(0),
+                                                2 => {
+                                                    g.pop();
+                                                }
+                                                3 => g = vec![f[7] | 0x80, 2, 0],
+                                                _ => g[0] = if g[0] == 3 { 4 } else { 3 },
+                                            }
+                                            Some(mbap_frame(tx, f[6], &g))
+                                        }
                                         Mode::BadFraming => Some(mbap_frame_raw(tx, 0x7777, 6, f[6], &[3, 2, 0, 0])),
                                         Mode::Close => break 'conn,
                                         Mode::Silence => None,
@@ -350,9 +365,8 @@ fn check_callback(ev: &mut Evidence, what: &str, rc: i32, c: &Cb, rep: &serde_js
     let comp = c.completions();
     let d = c.destroys.load(Ordering::SeqCst);
     ev.count("callback_objects_checked", 1);
-    // rejected for a parameter error before anything is queued: completion is don't-care
-    let param_error = matches!(rc, 2 | 7 | 8 | 9 | 10 | 12 | 19);
-    if comp != 1 && !(param_error && comp == 0) {
+    // "every completion callback fires exactly once whether or not the call itself reports an error"
+    if comp != 1 {
         ev.violation(
             format!("completion_callbacks={comp}:{what}:rc={rc}"),
             format!("{what}: the call returned {rc} and on_complete+on_failure fired {comp} times"),
@@ -386,6 +400,9 @@ fn client_outcomes(rt: &Rt, trt: &tokio::runtime::Runtime, args: &Args, ev: &mut
                 }
             }
             modes.push(Mode::BadResponse);
+            for k in 1..=4u8 {
+                modes.push(Mode::BadResponseKind(k));
+            }
             modes.push(Mode::Silence);
             modes.push(Mode::Genuine);
             let reqs: Vec<(ClientReq, u8, u64)> = modes.iter().map(|m| (gen_req(&mut rng, opk), rng.u8(), if *m == Mode::Silence { *rng.pick(&[120u64, 250]) } else { 2000 })).collect();
@@ -527,6 +544,124 @@ fn client_outcomes(rt: &Rt, trt: &tokio::runtime::Runtime, args: &Args, ev: &mut
             ev.class(format!("client_state|{}", cs.join(">")));
         }
     }
+}
+
+/// calls the library must refuse: nothing is transmitted, the call reports an error, and the
+/// completion callback still fires exactly once (a failure), followed by one on_destroy
+fn invalid_arguments(rt: &Rt, ev: &mut Evidence) {
+    let peer = Peer::start();
+    for _ in 0..64 {
+        peer.push(Mode::Genuine);
+    }
+    let ch = CChannel::tcp(rt, peer.port, 8, decode(0, 0, 0));
+    ch.enable();
+    if !ch.wait_state(2, Duration::from_secs(5)) {
+        ev.inconclusive("C-ABI channel did not connect (invalid-argument cells)");
+        ch.destroy();
+        return;
+    }
+    let bad: Vec<(&str, ClientReq)> = vec![
+        ("read_coils_count_0", ClientReq::Read { kind: Kind::ReadCoils, start: 5, count: 0 }),
+        ("read_coils_count_2001", ClientReq::Read { kind: Kind::ReadCoils, start: 5, count: 2001 }),
+        ("read_coils_overflow", ClientReq::Read { kind: Kind::ReadCoils, start: 65535, count: 2 }),
+        ("read_discrete_inputs_count_0", ClientReq::Read { kind: Kind::ReadDiscrete, start: 5, count: 0 }),
+        ("read_discrete_inputs_count_2001", ClientReq::Read { kind: Kind::ReadDiscrete, start: 0, count: 2001 }),
+        ("read_discrete_inputs_count_65535", ClientReq::Read { kind: Kind::ReadDiscrete, start: 0, count: 65535 }),
+        ("read_holding_registers_count_0", ClientReq::Read { kind: Kind::ReadHolding, start: 9, count: 0 }),
+        ("read_holding_registers_count_126", ClientReq::Read { kind: Kind::ReadHolding, start: 9, count: 126 }),
+        ("read_holding_registers_overflow", ClientReq::Read { kind: Kind::ReadHolding, start: 65530, count: 10 }),
+        ("read_input_registers_count_0", ClientReq::Read { kind: Kind::ReadInput, start: 9, count: 0 }),
+        ("read_input_registers_count_126", ClientReq::Read { kind: Kind::ReadInput, start: 9, count: 126 }),
+        ("write_multiple_coils_empty", ClientReq::WriteMultiCoils { start: 3, values: vec![] }),
+        ("write_multiple_coils_1969", ClientReq::WriteMultiCoils { start: 3, values: vec![true; 1969] }),
+        ("write_multiple_coils_overflow", ClientReq::WriteMultiCoils { start: 65535, values: vec![true, false] }),
+        ("write_multiple_registers_empty", ClientReq::WriteMultiRegs { start: 3, values: vec![] }),
+        ("write_multiple_registers_124", ClientReq::WriteMultiRegs { start: 3, values: vec![7; 124] }),
+        ("write_multiple_registers_overflow", ClientReq::WriteMultiRegs { start: 65535, values: vec![1, 2] }),
+    ];
+    for (name, req) in &bad {
+        ev.eval();
+        ev.count("invalid_argument_calls", 1);
+        let before = peer.frames.lock().unwrap().len();
+        let (rc, c) = ch.op(req, 1, 300);
+        c.wait(Duration::from_millis(1500));
+        std::thread::sleep(Duration::from_millis(30));
+        let sent = peer.frames.lock().unwrap().len() - before;
+        let rep = json!({"operation": req.describe(), "condition": name});
+        ev.class(format!("client|invalid_arguments|{name}|rc={rc}|{:?}", c.outcome()));
+        // the refusal may come from the call itself or, for limits that are checked when the request is
+        // encoded, through the callback (as with the Rust API): either way it is a failure
+        if rc == 0 && !matches!(c.outcome(), Outcome::Err(_)) {
+            ev.violation(format!("invalid_arguments:{name}:not_refused"), format!("{}: the call returned success and the callback reported {:?}", req.describe(), c.outcome()), rep.clone());
+        }
+        if sent != 0 {
+            ev.violation(format!("invalid_arguments:{name}:transmitted"), format!("{}: {sent} frame(s) reached the peer", req.describe()), rep.clone());
+        }
+        if matches!(c.outcome(), Outcome::Ok) {
+            ev.violation(format!("invalid_arguments:{name}:completed_ok"), format!("{}: on_complete fired", req.describe()), rep.clone());
+        }
+        check_callback(ev, &format!("client.invalid_arguments.{name}"), rc, &c, &rep);
+    }
+    // the same list object may be used for any number of writes
+    unsafe {
+        let values = [0x1111u16, 0x2222, 0x3333];
+        let list = ffi::rodbus_register_list_create(3);
+        for v in values {
+            ffi::rodbus_register_list_add(list, v);
+        }
+        let bits = ffi::rodbus_bit_list_create(3);
+        for v in [true, false, true] {
+            ffi::rodbus_bit_list_add(bits, v);
+        }
+        for round in 0..3 {
+            for which in ["registers", "coils"] {
+                ev.eval();
+                let before = peer.frames.lock().unwrap().len();
+                let (c, cb) = write_callback();
+                let rc = if which == "registers" {
+                    ffi::rodbus_client_channel_write_multiple_registers(ch.ch, param(1, 1000), 40, list, cb)
+                } else {
+                    ffi::rodbus_client_channel_write_multiple_coils(ch.ch, param(1, 1000), 40, bits, cb)
+                };
+                c.wait(Duration::from_millis(2000));
+                let frames = peer.frames.lock().unwrap().clone();
+                let rep = json!({"operation": format!("write_multiple_{which} with a list object used for the {}. time", round + 1)});
+                let want = if which == "registers" {
+                    ClientReq::WriteMultiRegs { start: 40, values: values.to_vec() }.encode()
+                } else {
+                    ClientReq::WriteMultiCoils { start: 40, values: vec![true, false, true] }.encode()
+                };
+                let got = frames.get(before).map(|f| f.0[7..].to_vec());
+                ev.class(format!("client|list_reuse|{which}|use{}|rc={rc}", round + 1));
+                if rc != 0 || got != want || !matches!(c.outcome(), Outcome::Ok) {
+                    ev.violation(
+                        format!("list_reuse:{which}:use{}:rc={rc}", round + 1),
+                        format!("write_multiple_{which} with the same list object, use #{}: rc={rc}, outcome {:?}, PDU on the wire {:?}, expected {:?}", round + 1, c.outcome(), got.map(|g| hex(&g)), want.map(|w| hex(&w))),
+                        rep.clone(),
+                    );
+                } else {
+                    ev.count("list_reuse_writes_checked", 1);
+                }
+                check_callback(ev, &format!("client.list_reuse.{which}"), rc, &c, &rep);
+            }
+        }
+        ffi::rodbus_register_list_destroy(list);
+        ffi::rodbus_bit_list_destroy(bits);
+    }
+    // null channel: refused, callback still settled
+    unsafe {
+        ev.eval();
+        let (c, cb) = bit_callback();
+        let rc = ffi::rodbus_client_channel_read_coils(std::ptr::null_mut(), param(1, 100), ffi::AddressRange { start: 0, count: 1 }, cb);
+        c.wait(Duration::from_millis(1000));
+        let rep = json!({"operation": "read_coils on a null channel"});
+        ev.class(format!("client|invalid_arguments|null_channel|rc={rc}|{:?}", c.outcome()));
+        if rc == 0 {
+            ev.violation("invalid_arguments:null_channel:call_accepted".to_string(), "read_coils(NULL, ...) returned success".to_string(), rep.clone());
+        }
+        check_callback(ev, "client.invalid_arguments.null_channel", rc, &c, &rep);
+    }
+    ch.destroy();
 }
 
 /// destructive outcomes, one channel each
@@ -1303,6 +1438,7 @@ pub fn run(args: &Args) -> i32 {
     let mut ev = Evidence::new();
     client_outcomes(&rt, &trt, args, &mut ev);
     client_failures(&rt, args, &mut ev);
+    invalid_arguments(&rt, &mut ev);
     write_results(&rt, args, &mut ev);
     match &log {
         Some(l) => decode_levels(&rt, &trt, l, &mut ev),
@@ -1322,7 +1458,7 @@ pub fn run(args: &Args) -> i32 {
         level: "exploration",
         rule: "one evaluation = one compared observable. Client: all eight operations through rodbus_client_channel_* with random arguments, unit ids and timeouts against a scripted loopback peer producing genuine replies, the 9 standard and all 256 raw exception codes, bad response, bad framing, close, silence, no listener, channel destroyed while pending, full queue; the same scenario runs through the Rust API; outcomes are compared after mapping names through an independent table, request bytes are compared with the reference encoder and with the Rust run, timeouts are measured. Server: a C-ABI write handler answering success / each standard exception / raw codes through WriteResult for all four write functions, observed by a raw client. Completion callbacks must sum to one and on_destroy must be one for every callback object. Decode levels: each of the 36 levels through the C ABI and through the Rust API with the process-wide C logger, message sets compared. Client/port state listeners compared by name. Configuration: max_queued_requests (accepted requests against a silent peer), TLS client settings (expected name and its wildcard switch, minimum version, certificate mode against an independent TLS server; creation result vs the Rust constructor), TLS server settings, retry delays, serial settings; max_sessions 2 / 256 / 258 through each of the three TCP/TLS server constructors; a C authorization handler with one callback per function answering by a bit mask (four masks): callback consulted, its arguments and role, client result, write-handler calls. distinct = (surface, operation, condition, reported name)".into(),
         assumptions: vec![
-            "calls rejected for a parameter error before anything is queued may or may not fire a completion callback; on_destroy must still be 1".into(),
+"the completion callback of a call that is refused (invalid range or list, null channel, full queue, runtime gone) must fire exactly once like any other; which error code it carries is not judged".into(),
             "the harness is Rust linking the rodbus-ffi rlib and calling only the generated extern \"C\" functions with extern \"C\" callbacks".into(),
         ],
         exhaustive: None,
@@ -1335,6 +1471,8 @@ pub fn run(args: &Args) -> i32 {
             ("queue_full_rejections".into(), 8),
             ("shutdown_completions".into(), 8),
             ("tls_configuration_cells".into(), 8),
+            ("invalid_argument_calls".into(), 17),
+            ("list_reuse_writes_checked".into(), 6),
             ("max_sessions_cells_as_expected".into(), 9),
             ("authorization_callbacks_checked".into(), 32),
             ("tls_client_configuration_cells_as_expected".into(), 9),
